@@ -315,6 +315,22 @@ def scripts(tier, seed, scale=1):
                 lines += ["st flush", "st deliver %d" % r.choice([1000, 5000, 100000]), "st poll", "st dispatch"]
         lines += ["st flush", "st deliver 1000000", "st poll", "st dispatch", "st sync"]
         out.append(("glue-big%s:%s:%d" % (mode.replace(" ", "-"), codec, k), lines))
+    # the reader queue is enlarged (mpt_stream_poll / mpt_stream_dispatch: mpt_queue_prepare(64)) while its content wraps
+    # with more than 1 KiB on each side of the wrap point: a long message first, then two back to back
+    for j, codec in enumerate(CODECS[:2] if tier == "quick" else CODECS * 3):
+        mode = ("", " input", " wait")[j % 3]
+        sizes = [2500, 1300, 2600] if j < 4 else [r.randrange(1200, 3000) for _ in range(3)]
+        seg = 500 if j < 4 else r.choice([300, 500, 700, 1100])
+        lines = ["st new " + codec + mode]
+        for i, n in enumerate(sizes):
+            m = [0x85 if mode == " wait" else 7] + [0 if r.random() < 0.04 else r.randrange(1, 256) for _ in range(n - 1)]
+            lines += ["st push " + gen.hexs(m), "st term"]
+            if i != 1:
+                lines.append("st flush")
+                for _ in range((sum(sizes[:i + 1]) * 2) // seg + 2 if i else (n * 2) // seg + 2):
+                    lines += ["st deliver %d" % seg, "st poll", "st dispatch"]
+        lines += ["st deliver 1000000", "st poll", "st dispatch", "st sync"]
+        out.append(("glue-grow%s:%s:%d" % (mode.replace(" ", "-"), codec, j), lines))
     # the write queue wraps around after a partial write and is flushed in two parts
     for codec in CODECS[:2] if tier == "quick" else CODECS:
         lines = ["st new " + codec, "st push " + gen.hexs([7, 0, 9] * 2000), "st flush1", "st push " + gen.hexs([1, 0] * 1500), "st term",
